@@ -50,6 +50,8 @@ def check(run):
     run.need(ist is not None, "anchor class IntervalStorage vanished")
     c07._storage(c06.FilterRun(run, {"OBS", "COUNT", "PARALLEL"}, {"OBS": "WINDOW", "COUNT": "WINDOW", "PARALLEL": "WINDOW"}),
                  prog, ist, True)
+    from .copylib import copy_protocol
+    copy_protocol(run, prog, ist)           # a copied window keeps its capacity and contents
 
 
 def _batch(run, prog, cls, method, original):
